@@ -1077,7 +1077,10 @@ class Process:
         num_cpus = cpu_count() or 1
 
         def timer():
-            return _timer() * num_cpus
+            # Not scaled by the number of CPUs: the value is kept
+            # until the next call and the number may have changed by
+            # then (CPU hot-plug).
+            return _timer()
 
         if blocking:
             st1 = timer()
@@ -1096,7 +1099,7 @@ class Process:
                 return 0.0
 
         delta_proc = (pt2.user - pt1.user) + (pt2.system - pt1.system)
-        delta_time = st2 - st1
+        delta_time = (st2 - st1) * num_cpus
         # reset values for next call in case of interval == None
         self._last_sys_cpu_times = st2
         self._last_proc_cpu_times = pt2
